@@ -30,7 +30,6 @@ import math
 import random
 from fractions import Fraction
 
-import numpy as np
 import torch
 
 from .core import Ctx, MachineryError
@@ -79,10 +78,7 @@ def model_check(ctx: Ctx, pid: str, cfgs: list[str]) -> list[dict]:
 
 def ld(mat, e: int, den: int = 1) -> torch.Tensor:
     """The float64 matrix  2^e * mat / den  (exact: small integers, power-of-two factors)."""
-    t = torch.tensor(mat, dtype=F64)
-    if t.ndim == 1:
-        t = t.reshape(0, 0) if t.numel() == 0 else t
-    return torch.ldexp(t / den, torch.tensor(e))
+    return torch.ldexp(torch.tensor(mat, dtype=F64) / den, torch.tensor(e))
 
 
 def rationalise(x: float, D: int = 10 ** 4):
@@ -338,11 +334,6 @@ def fmt(t) -> list | str:
     return t if isinstance(t, str) else [float(v) for v in t.tolist()]
 
 
-def slim(s: dict) -> dict:
-    """The part of a scenario that a replay file needs (everything but nothing bulky)."""
-    return {k: s[k] for k in s if k not in ()}
-
-
 def sample_scenarios(scn: list[dict], budget: int, rng: random.Random, keep=lambda s: False) -> list[dict]:
     """Deterministic sub-sample: all scenarios satisfying `keep` first, the rest drawn with rng."""
     scn = sorted(scn, key=lambda s: (s["id"], s["steps"], str(s["rp"]), str(s["Q"]), str(s["c1"]), str(s["c2"]),
@@ -353,14 +344,3 @@ def sample_scenarios(scn: list[dict], budget: int, rng: random.Random, keep=lamb
         return must + rest
     rng.shuffle(rest)
     return must + rest[: max(0, budget - len(must))]
-
-
-def group_by_instance(scn: list[dict]) -> list[list[dict]]:
-    by: dict[int, list[dict]] = {}
-    for s in scn:
-        by.setdefault(s["id"], []).append(s)
-    return [by[k] for k in sorted(by)]
-
-
-def np_seed(seed: int) -> np.random.Generator:
-    return np.random.default_rng(seed)
